@@ -43,7 +43,7 @@ class AsmRun:
         return "AsmRun(%s %s: %s)" % (self.status, self.exc_class, self.exc_msg)
 
 
-STEP_LIMIT = 400000
+STEP_LIMIT = 6000000
 
 
 def assemble(env, lines, want_listing=False, fs=None, bytes_of=None):
